@@ -7,7 +7,8 @@ from .base import Mgr, replay  # noqa: F401
 RULE = ('transition relations and sets over 1-3 primed/unprimed pairs by truth table '
         '(1 pair: all 16 x 4 exhaustively; 2-3 pairs sampled) x every order keeping pairs '
         'adjacent (arbitrary orders for image) x both quantifiers x every admissible subset of '
-        'quantified variables x names/levels as keys; non-trivial = relation and set non-constant')
+        'quantified variables x names/levels as keys; image results fed back as the source of a second '
+        'image; non-trivial = relation and set non-constant')
 EXHAUSTIVE = {'quick': False, 'thorough': False}
 ASSUMES = ['the rename map is injective (pairs); keys disjoint from values',
            'dynamic reordering is enabled (threshold already reached) around a quarter of the calls: '
@@ -119,6 +120,23 @@ def run_stream(ctx, npairs, order, cases, image_only=False):
             elif M.tt(r) != exp:
                 ctx.violation('C13:image-wrong',
                               f'image(forall={fa}) = {M.tt(r):#x}, expected {exp:#x}', M.case())
+            elif abs(r) != 1 and (image_only or rng.random() < 0.3):
+                # the result is a set over the unprimed variables: fed back as the source (the
+                # next step of a reachability iteration) it must again give the stated function
+                # (a result that is not an ordered diagram evaluates correctly by name and is
+                # mis-read by the next call: round-21 seed)
+                M.op('incref', r)
+                r2 = M.op('image', trans, r, kind, rn, qkind, qq, fa)
+                conj2 = tt_trans & exp
+                exp2 = T.rename(T.forall(conj2, n, qs) if fa else T.exists(conj2, n, qs), n, ren)
+                ctx.case(('img2', npairs, tuple(order), tt_trans, exp, fa), True)
+                ctx.count('image-of-image')
+                if r2 is None:
+                    ctx.violation('C13:image-rejected', 'image rejected its own result as the source', M.case())
+                elif M.tt(r2) != exp2:
+                    ctx.violation('C13:image-wrong',
+                                  f'second step image(forall={fa}) = {M.tt(r2):#x}, expected {exp2:#x}', M.case())
+                M.op('decref', r)
         M.op('decref', trans)
         M.op('decref', sset)
     M.check_table('C13:table')
